@@ -330,6 +330,13 @@ func (f *Func) reachTarget(
 ) (map[interface{}]reflect.Value, error) {
 	log.Trace("reachTarget", "target", target)
 
+	// Track the functions that are currently being reached. A path that
+	// leads through one of them would need that function's own result, so
+	// the argument it is for cannot be satisfied that way. Without this,
+	// converters that mutually require each other's output recurse forever.
+	state.Resolving[graph.VertexID(target)] = struct{}{}
+	defer delete(state.Resolving, graph.VertexID(target))
+
 	// argMap will store all the values that this target depends on.
 	argMap := map[interface{}]reflect.Value{}
 
@@ -406,9 +413,10 @@ func (f *Func) reachTarget(
 			input = paths[i][1]
 		}
 
-		// If the path contains ourself, then this target is unsatisfied.
+		// If the path contains ourself (or a function that is waiting for
+		// us), then this target is unsatisfied.
 		for _, v := range paths[i] {
-			if v == target {
+			if _, resolving := state.Resolving[graph.VertexID(v)]; resolving {
 				valueable, ok := current.(valueConverter)
 				if !ok {
 					// This shouldn't be possible
@@ -623,6 +631,10 @@ type callState struct {
 
 	// TODO
 	InputSet map[interface{}]graph.Vertex
+
+	// Resolving is the set of function vertices (by ID) whose arguments
+	// are currently being reached, innermost last.
+	Resolving map[interface{}]struct{}
 }
 
 func newCallState() *callState {
@@ -630,5 +642,6 @@ func newCallState() *callState {
 		NamedValue: map[string]reflect.Value{},
 		TypedValue: map[reflect.Type]reflect.Value{},
 		InputSet:   map[interface{}]graph.Vertex{},
+		Resolving:  map[interface{}]struct{}{},
 	}
 }
